@@ -1,0 +1,80 @@
+// This Source Code Form is subject to the terms of the Mozilla Public
+// License, v. 2.0. If a copy of the MPL was not distributed with this
+// file, You can obtain one at http://mozilla.org/MPL/2.0/.
+
+//go:build verif
+
+package dependency
+
+// Contracts for the deductive verifier in /verif (govc). Comment-only file: it
+// adds no code. Lines starting with //@ are parsed by govc; see /verif/DESIGN.md.
+
+// C17: output exclusivity. A resource type is never claimed both exclusively and shared, a shared
+// claim list is never empty, and an accepted claim is the only change an operation makes; a rejected
+// claim changes nothing. dbWrites counts the accepted output/input changes (ghost), so that callers
+// can state "a rejected registration performed no change".
+//@ ghostvar dbWrites int
+//@
+//@ type Database
+//@   guarded_by mu: exclusiveOutputs, sharedOutputs, inputLookup, inputLookupID, controllerInputs
+//@   invariant [maps] self.exclusiveOutputs != nil && self.sharedOutputs != nil && self.inputLookup != nil && self.inputLookupID != nil && self.controllerInputs != nil
+//@   invariant [exclusive-xor-shared] forall t string :: !(in(t, self.exclusiveOutputs) && in(t, self.sharedOutputs))
+//@   invariant [shared-nonempty] forall t string :: in(t, self.sharedOutputs) ==> len(self.sharedOutputs[t]) > 0
+//@
+//@ func (*Database).AddControllerOutput
+//@   props C17
+//@   requires [wired] db != nil
+//@   modifies dbWrites
+//@   at BinarySearch #1
+//@     assume_result [binary-search] 0 <= result0 && result0 <= len(sharedControllers)
+//@   ghost dbWrites = dbWrites + ite(result == nil, 1, 0)
+//@   ensures [counted] dbWrites == old(dbWrites) + ite(result == nil, 1, 0)
+//@   ensures [exclusive-claim-refused-when-claimed] acq(in(out.Type, db.exclusiveOutputs)) ==> result != nil
+//@   ensures [exclusive-refused-when-shared] out.Kind == 0 && acq(in(out.Type, db.sharedOutputs)) ==> result != nil
+//@   ensures [exclusive-accepted] result == nil && out.Kind == 0 ==> in(out.Type, db.exclusiveOutputs) && db.exclusiveOutputs[out.Type] == controllerName
+//@   ensures [rejected-has-no-effect] result != nil ==> (forall t string :: (in(t, db.exclusiveOutputs) <==> acq(in(t, db.exclusiveOutputs))) &&
+//@     (in(t, db.sharedOutputs) <==> acq(in(t, db.sharedOutputs))) && db.exclusiveOutputs[t] == acq(db.exclusiveOutputs[t]) && db.sharedOutputs[t] == acq(db.sharedOutputs[t]))
+//@   ensures [other-types-kept] forall t string :: t != out.Type ==> (in(t, db.exclusiveOutputs) <==> acq(in(t, db.exclusiveOutputs))) &&
+//@     (in(t, db.sharedOutputs) <==> acq(in(t, db.sharedOutputs))) && db.exclusiveOutputs[t] == acq(db.exclusiveOutputs[t]) && db.sharedOutputs[t] == acq(db.sharedOutputs[t])
+//@
+//@ func (*Database).GetResourceExclusiveController
+//@   props C17
+//@   requires [wired] db != nil
+//@   ensures [lookup] result1 == nil
+//@
+// Inputs. slices.BinarySearchFunc is higher-order: only the range of its result is assumed.
+//@ func (*Database).AddControllerInput
+//@   props C17
+//@   requires [wired] db != nil
+//@   modifies dbWrites
+//@   at BinarySearchFunc #1
+//@     assume_result [binary-search] 0 <= result0 && result0 <= len(existingInputs)
+//@   ghost dbWrites = dbWrites + ite(result == nil, 1, 0)
+//@   ensures [counted] dbWrites == old(dbWrites) + ite(result == nil, 1, 0)
+//@   ensures [rejected-has-no-effect] result != nil ==> (forall c string :: (in(c, db.controllerInputs) <==> acq(in(c, db.controllerInputs))) &&
+//@     db.controllerInputs[c] == acq(db.controllerInputs[c]))
+//@   ensures [other-controllers-kept] forall c string :: c != controllerName ==> (in(c, db.controllerInputs) <==> acq(in(c, db.controllerInputs))) &&
+//@     db.controllerInputs[c] == acq(db.controllerInputs[c])
+//@
+//@ func (*Database).DeleteControllerInput
+//@   props C17
+//@   requires [wired] db != nil
+//@   modifies dbWrites
+//@   at BinarySearchFunc #1
+//@     assume_result [binary-search] 0 <= result0 && result0 <= len(existingInputs)
+//@   ghost dbWrites = dbWrites + ite(result == nil, 1, 0)
+//@   ensures [counted] dbWrites == old(dbWrites) + ite(result == nil, 1, 0)
+//@   ensures [rejected-has-no-effect] result != nil ==> (forall c string :: (in(c, db.controllerInputs) <==> acq(in(c, db.controllerInputs))) &&
+//@     db.controllerInputs[c] == acq(db.controllerInputs[c]))
+//@   ensures [other-controllers-kept] forall c string :: c != controllerName ==> (in(c, db.controllerInputs) <==> acq(in(c, db.controllerInputs))) &&
+//@     db.controllerInputs[c] == acq(db.controllerInputs[c])
+//@
+//@ func (*Database).GetControllerInputs
+//@   props C17 C19
+//@   requires [wired] db != nil
+//@   ensures [snapshot] result1 == nil && (len(result0) > 0 ==> fresh(result0))
+//@
+//@ func (*Database).GetDependentControllers
+//@   props C17
+//@   requires [wired] db != nil
+//@   ensures [id-required] !dep.ID.present ==> result1 != nil
